@@ -129,6 +129,9 @@ func (fc *FCtx) pkgVar(o *types.Var) Val {
 		if ts == "*cosmossdk.io/errors.Error" || isErrorType(o.Type()) {
 			return Val{T: fmt.Sprint(fc.U.ErrCode(o.Pkg().Path() + "." + o.Name())), S: SInt, GoT: o.Type()}
 		}
+		if isByteSliceType(o.Type()) {
+			return fc.keyConst(o)
+		}
 		if v, ok := fc.E.pkgVarInit(fc, o); ok {
 			return v
 		}
@@ -337,6 +340,8 @@ func (fc *FCtx) nilCompare(e *ast.BinaryExpr, st *State) (Val, bool) {
 			v := fc.eval(other, st)
 			if v.S.Kind == KSlice {
 				term = fmt.Sprintf("(and (= %s 0) (= %s 0))", slLen(v), slCap(v))
+			} else if v.S.Name == "Bz" {
+				term = "(= " + v.T + " bz_nil)"
 			} else {
 				oos("nil comparison on %s", typeString(t))
 			}
